@@ -60,12 +60,21 @@ theorem step_kinds (f : Bool) (s : St) (o : Op) : (step f s o).1.kinds = s.kinds
   | stopDone b => simp only [step, stopDone]; (repeat' split) <;> rfl
   | tick => rfl
 
+theorem step_mode (f : Bool) (s : St) (o : Op) : (step f s o).1.stopMode = s.stopMode := by
+  cases o with
+  | cmd c => cases c <;> simp only [step, retireCmd, exitCmd, webRetireCmd, webExitCmd] <;> (repeat' split) <;> rfl
+  | qack i ok => simp only [step, queryAck]; (repeat' split) <;> rfl
+  | svcRetired i => simp only [step, serviceRetired]; (repeat' split) <;> rfl
+  | svcOther i => rfl
+  | stopDone b => simp only [step, stopDone]; (repeat' split) <;> rfl
+  | tick => rfl
+
 /-- unfold one step in a state whose `st` is a constructor -/
 macro "nc_unfold" : tactic =>
   `(tactic| simp only [step, retireCmd, exitCmd, webRetireCmd, webExitCmd, queryAck, serviceRetired, stopDone])
 
 theorem step_rank_le (s : St) (o : Op) : s.st.rank ≤ (step true s o).1.st.rank := by
-  obtain ⟨st, kinds, qpend, support, retired, allSup, stopPend⟩ := s
+  obtain ⟨st, kinds, qpend, support, retired, allSup, stopPend, stopMode⟩ := s
   cases o with
   | cmd c => cases c <;> cases st <;> nc_unfold <;> (repeat' split) <;> simp_all [NS.rank]
   | qack i ok => nc_unfold; (repeat' split) <;> simp
@@ -74,12 +83,14 @@ theorem step_rank_le (s : St) (o : Op) : s.st.rank ≤ (step true s o).1.st.rank
   | stopDone b => cases st <;> nc_unfold <;> (repeat' split) <;> simp_all [NS.rank]
   | tick => simp [step]
 
-/-- a step publishes nothing and keeps the state, or publishes exactly the new state -/
+/-- a step publishes nothing and keeps the state, or publishes exactly the new state, or (an
+exit whose StopNode completes inline with success) publishes exiting then exited from retired -/
 theorem step_pubs (s : St) (o : Op) :
     (pubRanks (step true s o).2 = [] ∧ (step true s o).1.st = s.st) ∨
-    pubRanks (step true s o).2 = [(step true s o).1.st.rank] := by
+    pubRanks (step true s o).2 = [(step true s o).1.st.rank] ∨
+    (pubRanks (step true s o).2 = [4, 5] ∧ (step true s o).1.st = .exited ∧ s.st = .retired) := by
   cases o with
-  | cmd c => cases c <;> nc_unfold <;> (repeat' split) <;> simp
+  | cmd c => cases c <;> nc_unfold <;> (repeat' split) <;> simp_all [NS.rank]
   | qack i ok => nc_unfold; (repeat' split) <;> simp
   | svcRetired i => nc_unfold; (repeat' split) <;> simp
   | svcOther i => simp [step]
@@ -88,7 +99,7 @@ theorem step_pubs (s : St) (o : Op) :
 
 theorem step_stops (s : St) (o : Op) :
     stops (step true s o).2 + stopBudget s ≤ stopBudget (step true s o).1 := by
-  obtain ⟨st, kinds, qpend, support, retired, allSup, stopPend⟩ := s
+  obtain ⟨st, kinds, qpend, support, retired, allSup, stopPend, stopMode⟩ := s
   cases o with
   | cmd c => cases c <;> cases st <;> nc_unfold <;> (repeat' split) <;> simp_all [NS.rank, stopBudget]
   | qack i ok => nc_unfold; (repeat' split) <;> simp [stopBudget]
@@ -110,6 +121,11 @@ theorem run_kinds (f : Bool) (s : St) (ops : List Op) : (run f s ops).1.kinds = 
   | nil => rfl
   | cons o os ih => simp [run, ih, step_kinds]
 
+theorem run_mode (f : Bool) (s : St) (ops : List Op) : (run f s ops).1.stopMode = s.stopMode := by
+  induction ops generalizing s with
+  | nil => rfl
+  | cons o os ih => simp [run, ih, step_mode]
+
 theorem run_rank_le (s : St) (ops : List Op) : s.st.rank ≤ (run true s ops).1.st.rank := by
   induction ops generalizing s with
   | nil => simp [run]
@@ -124,7 +140,7 @@ theorem run_pubs_pairwise (s : St) (ops : List Op) :
     have hle := step_rank_le s o
     simp only [run, pubRanks_append]
     rw [List.pairwise_cons] at h1
-    rcases step_pubs s o with ⟨hp, _⟩ | hp
+    rcases step_pubs s o with ⟨hp, _⟩ | hp | ⟨hp, he, hs⟩
     · rw [hp, List.nil_append, List.pairwise_cons]
       exact ⟨fun x hx => Nat.le_trans hle (h1.1 x hx), h1.2⟩
     · rw [hp, List.pairwise_cons]
@@ -134,6 +150,21 @@ theorem run_pubs_pairwise (s : St) (ops : List Op) :
         · exact Nat.le_trans hle (h1.1 x hx)
       · simp only [List.singleton_append, List.pairwise_cons]
         exact ⟨h1.1, h1.2⟩
+    · rw [hp]
+      rw [he] at h1
+      have h5 : ∀ x, x ∈ pubRanks (run true (step true s o).1 os).2 → 5 ≤ x := fun x hx => by
+        have := h1.1 x hx; simpa [NS.rank] using this
+      have hs3 : s.st.rank = 3 := by rw [hs]; rfl
+      simp only [List.cons_append, List.nil_append, List.pairwise_cons, List.mem_cons]
+      refine ⟨?_, ?_, ?_, h1.2⟩
+      · rintro x (rfl | rfl | hx)
+        · omega
+        · omega
+        · have := h5 x hx; omega
+      · rintro x (rfl | hx)
+        · omega
+        · have := h5 x hx; omega
+      · exact h5
 
 theorem run_stops (s : St) (ops : List Op) :
     stops (run true s ops).2 + stopBudget s ≤ stopBudget (run true s ops).1 := by
@@ -158,7 +189,7 @@ structure RInv (hist : List Op) (s : St) : Prop where
   sup_pos : s.allSup = true → 0 < s.kinds.length
   leave : s.st ≠ .working → 0 < s.kinds.length
 
-theorem RInv.start (kinds : List Kind) : RInv [] (start kinds) := by
+theorem RInv.start (kinds : List Kind) (mode : StopMode) : RInv [] (start kinds mode) := by
   refine ⟨?_, ?_, ?_, ?_, ?_, ?_, ?_, ?_, ?_⟩ <;> simp [NodeCtrl.start, NS.rank]
   intro h; exact ⟨0, h⟩
 
@@ -194,13 +225,13 @@ theorem RInv.step {hist : List Op} {s : St} (h : RInv hist s) (o : Op) :
   cases o with
   | cmd c =>
     have hs := h.snoc_same (.cmd c) (by intro i; simp)
-    obtain ⟨st, kinds, qpend, support, retired, allSup, stopPend⟩ := s
+    obtain ⟨st, kinds, qpend, support, retired, allSup, stopPend, stopMode⟩ := s
     cases c <;> cases st <;> nc_unfold <;> (repeat' split) <;> (try exact hs) <;>
       (obtain ⟨h1, h2, h3, h4, h5, h6, h7, h8, h9⟩ := hs
        refine ⟨?_, ?_, ?_, ?_, ?_, ?_, ?_, ?_, ?_⟩ <;> simp_all [NS.rank])
   | qack i ok =>
     have hs := h.snoc_same (.qack i ok) (by intro i; simp)
-    obtain ⟨st, kinds, qpend, support, retired, allSup, stopPend⟩ := s
+    obtain ⟨st, kinds, qpend, support, retired, allSup, stopPend, stopMode⟩ := s
     nc_unfold
     split
     · exact hs
@@ -235,7 +266,7 @@ theorem RInv.step {hist : List Op} {s : St} (h : RInv hist s) (o : Op) :
         · exact h3 j (Or.inl (List.mem_filter.mp hj).1)
         · exact h3 j (Or.inr hj)
   | svcRetired i =>
-    obtain ⟨st, kinds, qpend, support, retired, allSup, stopPend⟩ := s
+    obtain ⟨st, kinds, qpend, support, retired, allSup, stopPend, stopMode⟩ := s
     obtain ⟨h1, h2, h3, h4, h5, h6, h7, h8, h9⟩ := h
     simp only at h1 h2 h3 h4 h5 h6 h7 h8 h9
     have hist_iff : ∀ j, j ≠ i → (Op.svcRetired j ∈ hist ++ [Op.svcRetired i] ↔ Op.svcRetired j ∈ hist) :=
@@ -279,7 +310,7 @@ theorem RInv.step {hist : List Op} {s : St} (h : RInv hist s) (o : Op) :
   | svcOther i => exact h.snoc_same _ (by intro i; simp)
   | stopDone b =>
     have hs := h.snoc_same (.stopDone b) (by intro i; simp)
-    obtain ⟨st, kinds, qpend, support, retired, allSup, stopPend⟩ := s
+    obtain ⟨st, kinds, qpend, support, retired, allSup, stopPend, stopMode⟩ := s
     cases st <;> nc_unfold <;> (repeat' split) <;> (try exact hs) <;>
       (obtain ⟨h1, h2, h3, h4, h5, h6, h7, h8, h9⟩ := hs
        refine ⟨?_, ?_, ?_, ?_, ?_, ?_, ?_, ?_, ?_⟩ <;> simp_all [NS.rank] <;> (try omega))
@@ -297,17 +328,23 @@ theorem RInv.run {hist : List Op} {s : St} (h : RInv hist s) (ops : List Op) :
     simpa [NodeCtrl.run, List.append_assoc] using this
 
 /-- the state reached by a whole case satisfies the invariant for its full history -/
-theorem RInv.exec (kinds : List Kind) (ops : List Op) :
-    RInv (history kinds ops) (exec true kinds ops).1 := by
-  have := (RInv.start kinds).run (history kinds ops)
+theorem RInv.exec (kinds : List Kind) (ops : List Op) (mode : StopMode) :
+    RInv (history kinds ops) (exec true kinds ops mode).1 := by
+  have := (RInv.start kinds mode).run (history kinds ops)
   simpa [NodeCtrl.exec] using this
 
-theorem exec_kinds (f : Bool) (kinds : List Kind) (ops : List Op) : (exec f kinds ops).1.kinds = kinds := by
+theorem exec_kinds (f : Bool) (kinds : List Kind) (ops : List Op) (mode : StopMode) :
+    (exec f kinds ops mode).1.kinds = kinds := by
   simp [exec, run_kinds, start]
 
+theorem exec_mode (f : Bool) (kinds : List Kind) (ops : List Op) (mode : StopMode) :
+    (exec f kinds ops mode).1.stopMode = mode := by
+  simp [exec, run_mode, start]
+
 /-- the driver threads the state from `boot`: that computes `exec` -/
-theorem exec_eq_boot_run (f : Bool) (kinds : List Kind) (ops : List Op) :
-    exec f kinds ops = ((run f (boot f kinds).1 ops).1, (boot f kinds).2 ++ (run f (boot f kinds).1 ops).2) := by
+theorem exec_eq_boot_run (f : Bool) (kinds : List Kind) (ops : List Op) (mode : StopMode) :
+    exec f kinds ops mode =
+      ((run f (boot f kinds mode).1 ops).1, (boot f kinds mode).2 ++ (run f (boot f kinds mode).1 ops).2) := by
   simp [boot, exec, history, run_append, run, List.append_assoc]
 
 /-- the immediate answers to the probe are support answers, never notifications -/
@@ -320,9 +357,10 @@ theorem svcRetired_mem_history (kinds : List Kind) (ops : List Op) (i : Nat) :
     | cons k rest ih => intro off; cases k <;> simp [autoAcks, ih]
   simp [history, aux]
 
-theorem exec_snoc (f : Bool) (kinds : List Kind) (ops : List Op) (o : Op) :
-    exec f kinds (ops ++ [o]) =
-      ((step f (exec f kinds ops).1 o).1, (exec f kinds ops).2 ++ (step f (exec f kinds ops).1 o).2) := by
+theorem exec_snoc (f : Bool) (kinds : List Kind) (ops : List Op) (o : Op) (mode : StopMode) :
+    exec f kinds (ops ++ [o]) mode =
+      ((step f (exec f kinds ops mode).1 o).1,
+       (exec f kinds ops mode).2 ++ (step f (exec f kinds ops mode).1 o).2) := by
   simp [exec, history, ← List.append_assoc, run_append, run]
 
 end Cell2v.NodeCtrl
